@@ -6,8 +6,8 @@
      blocks as the per-statement lists together (merge_symbols_count);
    * together: n_emitted (parse_model …) = number of statements (every_statement_contributes).
    The guards are exactly the finding classes refuted in ParseModelExamples (two names on the left, a left-hand
-   name called as a function, identical duplicates); the unclosed fence is a property of split_equations_iter
-   (the lines never become a statement): SplitChunksFacts shows that this is the only way a line is lost, and
+   name called as a function, identical duplicates); the unclosed fence — formerly a fourth finding — is a
+   ParserError since 85765d5 (SplitChunksFacts.unclosed_fence_is_parser_error), so an accepted model loses no line:
    no_statement_discarded below puts both halves together. *)
 From Coq Require Import String Ascii List Bool Arith ZArith Lia.
 Import ListNotations.
@@ -420,23 +420,38 @@ Proof.
   destruct serr; [discriminate|reflexivity].
 Qed.
 
-(* For every input string, oracle and check_syntax setting: when the model is accepted, no fenced block is left
-   open, each statement names one variable on its left that it does not also call, and no name is given an
-   equation twice, then the comment-stripped lines of the script are exactly the chunks in order (nothing lies
+(* For every input string, oracle and check_syntax setting: when the model is accepted, each statement names one
+   variable on its left that it does not also call, and no name is given an equation twice (since 85765d5 an accepted
+   model cannot end inside an open fence, so that guard is gone), then the comment-stripped lines of the script are exactly the chunks in order (nothing lies
    between or after them) and the built model has exactly one equation / verbatim block per non-blank chunk. *)
 Theorem no_statement_discarded chk cs s out :
   parse_model_M chk cs s = POk out ->
   (forall st, In st (fst (split_M s)) -> stmt_guard st) ->
   NoDup (emit_names (concat (stmt_symbols s))) ->
-  ends_in_open_fence s = false ->
   model_lines s = concat (model_chunks s) /\
   fst (split_M s) = map join_nl (filter nonblank_chunk (model_chunks s)) /\
   n_emitted out = length (filter nonblank_chunk (model_chunks s)).
 Proof.
-  intros H G ND Hc.
+  intros H G ND.
   pose proof (every_statement_contributes chk cs s out H G ND) as N.
   pose proof (parse_model_ok_split _ _ _ _ H) as Hs.
   destruct (split_M s) as [ys oe] eqn:Es. cbn [fst snd] in *. subst oe.
-  destruct (closed_no_line_lost s ys Es Hc) as (_ & Hl & Hy).
+  destruct (accepted_no_line_lost s ys Es) as (_ & _ & Hl & Hy).
   split; [exact Hl|]. split; [exact Hy|]. rewrite N, Hy at 1. apply map_length.
+Qed.
+
+(* ---------- 85765d5: an unclosed fence is never accepted ---------- *)
+(* for every oracle and check_syntax setting: a script that ends inside an open fence is not accepted … *)
+Theorem unclosed_fence_never_accepted chk cs s out : ends_in_open_fence s = true -> parse_model_M chk cs s <> POk out.
+Proof.
+  intros Hf H. pose proof (parse_model_ok_split _ _ _ _ H) as Hs. rewrite (unclosed_fence_is_parser_error s Hf) in Hs. discriminate.
+Qed.
+(* … and when the statements before the fence parse (and pass the syntax check or are recorded as problems) the
+   exception is the ParserError of the splitter, raised before the problem-statement report and the merge *)
+Theorem unclosed_fence_parser_error chk cs s r :
+  ends_in_open_fence s = true -> parse_statements chk cs (fst (split_M s)) [] false = POk r ->
+  parse_model_M chk cs s = PErr ParserError.
+Proof.
+  intros Hf Hp. pose proof (unclosed_fence_is_parser_error s Hf) as Hs. unfold parse_model_M.
+  destruct (split_M s) as [stmts serr]. cbn [fst snd] in *. rewrite Hp, Hs. destruct r. reflexivity.
 Qed.
